@@ -77,6 +77,15 @@ def run(ctx):
            why='wells of a list selection are returned in another order', key='get reorders list selections',
            nontrivial=False)
 
+    # ---- the observer of a selection reads the cells the selection stores (same keys as apply / set write)
+    from . import c01
+    before = len(ctx.obs)
+    c01.writeback_locality(ctx)
+    kept = [o for o in ctx.obs[before:] if o.func == 'Slicer.get']
+    for o in kept:
+        o.rule = 'C13.R3'
+    ctx.obs[before:] = kept
+
     # ---- R4 default labels, label validation, well names (Plate.__init__)
     pi = model.func('Plate.__init__')
     ff = ctx.flow('Plate.__init__')
